@@ -117,9 +117,29 @@ def m_b64decode(data, altchars=None, validate=False):
         return base64.b64decode(data, altchars, validate)
     if isinstance(data, SStr):
         data = data.encode("ascii")
+    data = SBytes.lift(data)
     enc, decd, Err = _b64_model()
     if altchars is not None:
-        raise Unsupported("b64decode with altchars on symbolic data")
+        alt = bytes(altchars)
+        tab = bytearray(range(256))
+        tab[alt[0]], tab[alt[1]] = ord("+"), ord("/")
+        if not validate:
+            # '+' and '/' themselves stay valid for the lenient decoder; with validate=True CPython rejects them only
+            # indirectly (they are translated first), which this model mirrors
+            pass
+        data = SBytes.lift(data.translate(bytes(tab)))
+    if validate:
+        # strict mode: only alphabet characters, padding only at the end, total length a multiple of 4
+        std = list(b"ABCDEFGHIJKLMNOPQRSTUVWXYZabcdefghijklmnopqrstuvwxyz0123456789+/")
+        n = len(data)
+        npad = 0
+        while npad < 2 and npad < n and sym.elem_in(data.b[n - 1 - npad], [0x3D]):
+            npad += 1
+        for c in data.b[:n - npad]:
+            if not sym.elem_in(c, std):
+                raise binascii.Error("Only base64 data is allowed")
+        if n % 4 or (n - npad) % 4 == 1:
+            raise binascii.Error("Incorrect padding")
     try:
         return decd(data)
     except Err as e:
@@ -130,9 +150,13 @@ def m_b64encode(data, altchars=None):
     if isinstance(data, (bytes, bytearray)):
         return base64.b64encode(data, altchars)
     enc, decd, Err = _b64_model()
+    out = enc(data, newline=False)
     if altchars is not None:
-        raise Unsupported("b64encode with altchars on symbolic data")
-    return enc(data, newline=False)
+        alt = bytes(altchars)
+        tab = bytearray(range(256))
+        tab[ord("+")], tab[ord("/")] = alt[0], alt[1]
+        out = SBytes.lift(out).translate(bytes(tab))
+    return out
 
 
 def _conv_wrappers():
@@ -158,7 +182,20 @@ def _conv_wrappers():
         if isinstance(source, SBytes):
             return source.decode(encoding)
         return U.to_native_str(source, encoding, param)
-    return {U.to_unicode: to_unicode, U.to_bytes: to_bytes, U.to_native_str: to_native_str}
+    def join_unicode(parts):
+        parts = list(parts)
+        if any(isinstance(p, SStr) for p in parts):
+            return SStr([]).join(parts)
+        return U.join_unicode(parts)
+
+    def join_bytes(parts):
+        parts = list(parts)
+        if any(isinstance(p, SBytes) for p in parts):
+            from .sbytes import join_bytes as jb
+            return jb(b"", parts)
+        return U.join_bytes(parts)
+    return {U.to_unicode: to_unicode, U.to_bytes: to_bytes, U.to_native_str: to_native_str, U.join_unicode: join_unicode,
+            U.join_bytes: join_bytes}
 
 
 _ENGINES = {}
@@ -262,6 +299,14 @@ def env_triples(H):
     for m in mods:
         out += module_triples(m, conv)
     out += class_triples(base)
+    # the generic renderers join their parts with str.join (C level): route through the join hook
+    from .instrument import instrument as _instr
+    for fn in ("render_mc2", "render_mc3"):
+        try:
+            newf, _ = _instr(getattr(uh, fn), opts=("join", "fstr", "fmt"))
+            out.append((uh, fn, newf))
+        except Exception:
+            pass
     # parsing methods of the hasher classes: formatting / indexing with symbolic operands goes through hooks
     from .instrument import instrument_attr
     done = set()
